@@ -767,6 +767,12 @@ def bi_int(I, args, kw):
         return VInt(to_int(v))
     if isinstance(v, VReal):
         return VInt(real_to_int_trunc(v.e))
+    if isinstance(v, VStr) and isinstance(const_of(v), str) and not I.spec:
+        # a concrete string: decided by the host python (same CPython int() semantics), no solver involved
+        try:
+            return VInt(int(const_of(v)))
+        except ValueError:
+            I.raise_exc("ValueError", "invalid literal for int()")
     if isinstance(v, VStr):
         # int(str): uninterpreted predicate/function pair (int_parses, int_value) that agrees with the decimal
         # reading on plain digit strings; other accepted spellings (sign, blanks, underscores) stay abstract
@@ -795,6 +801,26 @@ def int_parse_terms(I, e):
         I.ver.note_assumption("int(str): int_parses/int_value are uninterpreted except on plain ASCII digit strings "
                               "(where they are the decimal value) and the empty string (does not parse)")
     return ip(e), iv(e)
+
+
+def isdigit_term(I, e):
+    """str.isdigit(): uninterpreted predicate with the trusted facts
+         isdigit(s) => s != ""                                    (python: empty string is not a digit string)
+         s in [0-9]+ => isdigit(s)                                (and int(s) parses: int_parse_terms)
+         isdigit((U+00B2))  and  not int_parses((U+00B2))          (SUPERSCRIPT TWO is a digit but not a decimal:
+                                                                   isdigit does NOT imply that int() accepts s)"""
+    f = z3.Function("str_isdigit", z3.StringSort(), z3.BoolSort())
+    if not getattr(I.path, "_isdigit_axiom", False):
+        I.path._isdigit_axiom = True
+        x = z3.String("idg_x")
+        ip, _ = int_parse_terms(I, z3.StringVal("0"))
+        ipf = ip.decl()
+        I.path.assume(z3.ForAll([x], z3.Implies(f(x), z3.Length(x) > 0), patterns=[f(x)]))
+        I.path.assume(z3.ForAll([x], z3.Implies(z3.InRe(x, z3.Plus(z3.Range("0", "9"))), f(x)), patterns=[f(x)]))
+        sup2 = z3.StringVal(chr(0xb2))
+        I.path.assume(z3.And(f(sup2), z3.Not(ipf(sup2))))
+        I.ver.note_assumption("str.isdigit(): uninterpreted except: false on '', true on [0-9]+, true on U+00B2 which int() rejects")
+    return f(e)
 
 
 def sp_int_parses(I, args, kw):
@@ -1151,8 +1177,9 @@ def bi_sorted(I, args, kw):
     return sort_seq(I, v, key)
 
 
-def sort_seq(I, v, key):
-    """trusted contract of sorted()/list.sort(): a stable permutation ordered by key"""
+def sort_seq(I, v, key, reverse=False):
+    """trusted contract of sorted()/list.sort(): a stable permutation ordered by key (reverse=True: descending
+    keys, elements with equal keys keep their original relative order)"""
     p = I.path
     if isinstance(v, VEmptyList):
         return v
@@ -1180,7 +1207,7 @@ def sort_seq(I, v, key):
         finally:
             I.spec = saved
     ki, kj = keyof(z3.Select(res.arr, i)), keyof(z3.Select(res.arr, j))
-    le = I.lt(ki, kj, False)
+    le = I.lt(kj, ki, False) if reverse else I.lt(ki, kj, False)
     keq = I.eq(ki, kj)
     p.assume(z3.ForAll([i, j], z3.Implies(z3.And(0 <= i, i < j, j < n), le)))
     p.assume(z3.ForAll([i, j], z3.Implies(z3.And(0 <= i, i < j, j < n, keq), sg(i) < sg(j))))
@@ -1310,6 +1337,8 @@ BUILTIN_FUNCS = {
     "deque": bi_deque, "OrderedDict": None,
 }
 BUILTIN_FUNCS.update(jsontree.SPEC_FUNCS)
+from . import ext_listing as _ext_listing
+BUILTIN_FUNCS.update(_ext_listing.SPEC_FUNCS)
 BUILTIN_TYPES = {"int": bi_int, "float": bi_float, "bool": bi_bool, "str": bi_str, "list": bi_list,
                  "tuple": bi_tuple, "dict": bi_dict, "set": bi_set, "object": bi_object, "deque": bi_deque}
 TYPE_NAMES = {"int", "float", "bool", "str", "list", "tuple", "dict", "set", "object", "NoneType", "bytes",
@@ -1436,7 +1465,11 @@ def seq_method(I, o, name, args, kw):
         o.writeback()
         return VNone()
     if name == "sort":
-        r = sort_seq(I, VSeq(o.arr, o.n, o.et, "list"), kw.get("key"))
+        rev = kw.get("reverse")
+        rev = False if rev is None else const_of(rev)
+        if not isinstance(rev, bool):
+            raise Unsupported("list.sort(reverse=<symbolic>)")
+        r = sort_seq(I, VSeq(o.arr, o.n, o.et, "list"), kw.get("key"), reverse=rev)
         o.arr, o.n = r.arr, r.n
         o.writeback()
         return VNone()
@@ -1650,6 +1683,10 @@ def str_method(I, s, name, args, kw):
         return VStr(z3.Replace(s.e, args[0].e, args[1].e)) if False else I.ver.opaque_str("replace", VTuple([s] + list(args)), I)
     if name == "find":
         return VInt(z3.IndexOf(s.e, args[0].e, 0))
+    if name == "isdigit":
+        if isinstance(const_of(s), str):
+            return VBool(const_of(s).isdigit())     # concrete string: host python decides
+        return VBool(isdigit_term(I, s.e))
     if name == "join":
         xs = I.force(args[0])
         if isinstance(xs, (VTuple, VJList)) and any(isinstance(x, VWStr) for x in xs.items):
